@@ -1,4 +1,4 @@
-(* Props.v (C15) — statements only.  Proofs: C15/Lemmas.v.
+(* Props.v (C15) — statements only.  Proofs: C15/Lemmas.v, C15/LemmasFrames.v (frame lists).
 
    Reading.  A coordinate is `option Q` (None = NaN), a point the list of its
    coordinates, `missing p` = some coordinate is NaN.  `oks_pair coco scale sds g p`
@@ -12,7 +12,7 @@
    automatic scale always is: c15_auto_scale_defined). *)
 From Coq Require Import List Arith ZArith QArith Qreals Reals Permutation.
 Import ListNotations.
-From SV Require Import C15.Oks C15.Lemmas.
+From SV Require Import C15.Oks C15.Lemmas C15.Frames C15.LemmasFrames.
 Local Open Scope R_scope.
 
 (* ---- OKS lies in [0,1] ---- *)
@@ -188,6 +188,82 @@ Proof.
 Qed.
 Print Assumptions c15_match_total_partial.
 
+(* ---- matching over the frames of an evaluation (match_frame_pairs, Frames.v) ----
+   fps: the frame pairs, each (n_gt, prediction scores, OKS matrix); any pair may have no gt
+   instance, no predicted instance, or neither.  Instances are (frame position, index).
+   `fm_gt m` / `fm_pr m` = the gt / predicted instance of a reported pair. *)
+
+(* the loop with its two accumulators = the per-frame results of match_instances laid end to
+   end in frame order (no frame pair skipped, none visited twice) *)
+Theorem c15_frames_concatenation : forall fixed thr fps ps fns,
+  match_frame_pairs fixed thr fps = Some (ps, fns) <->
+  exists rs, Forall2 (fun fp r => match_frame fixed thr fp = Some r) fps rs /\
+             ps = tag_all 0 (map fst rs) /\ fns = tag_all 0 (map snd rs).
+Proof. exact match_frame_pairs_concat. Qed.
+Print Assumptions c15_frames_concatenation.
+
+(* conservation over the whole list: matched ++ missed is a permutation of every gt instance
+   of every frame pair; in particular the counts add up *)
+Theorem c15_frames_conservation : forall fixed thr fps ps fns,
+  match_frame_pairs fixed thr fps = Some (ps, fns) ->
+  Permutation (map fm_gt ps ++ fns) (all_gt fps) /\
+  (length ps + length fns = total_gt fps)%nat.
+Proof.
+  intros fixed thr fps ps fns H. split;
+    [eapply match_frame_pairs_conservation|eapply match_frame_pairs_count]; exact H.
+Qed.
+Print Assumptions c15_frames_conservation.
+
+(* each gt instance is matched or missed at most once (never both), each predicted instance is
+   used at most once, across the whole list; every pair stays inside one frame pair, is an
+   entry of that pair's score matrix and is above the threshold *)
+Theorem c15_frames_one_to_one : forall fixed thr fps ps fns,
+  match_frame_pairs fixed thr fps = Some (ps, fns) ->
+  NoDup (map fm_gt ps ++ fns) /\ NoDup (map fm_pr ps) /\
+  Forall (fun m => exists fp, nth_error fps (fst m) = Some fp /\
+            (snd (fm_gt m) < fp_ngt fp)%nat /\ (snd (fm_pr m) < length (fp_scores fp))%nat /\
+            mget (fp_oks fp) (snd (fm_gt m)) (snd (fm_pr m)) = Some (fm_oks m) /\
+            eligible thr (fm_oks m)) ps.
+Proof.
+  intros fixed thr fps ps fns H.
+  destruct (match_frame_pairs_one_to_one _ _ _ _ _ H) as [H1 H2]. split; [exact H1|]. split; [exact H2|].
+  eapply Forall_impl; [|eapply match_frame_pairs_valid; exact H].
+  intros m [j [fp [Hj [Hn [_ Hrest]]]]]. exists fp. cbn [Nat.add] in Hj. rewrite Hj. tauto.
+Qed.
+Print Assumptions c15_frames_one_to_one.
+
+(* frame pairs with nothing to match: a predicted frame without instances (or whose candidates
+   are all NaN / not above the threshold) reports every gt instance of the pair as missed; a gt
+   frame without instances contributes nothing *)
+Theorem c15_frame_without_match_all_missed : forall fixed thr fp r,
+  (fp_scores fp = [] \/ forall g p q, mget (fp_oks fp) g p = Some q -> (q <= thr)%Q) ->
+  match_frame fixed thr fp = Some r -> r = ([], seq 0 (fp_ngt fp)).
+Proof.
+  intros fixed thr fp r [Hs|Hlow] H; [|eapply match_frame_all_below; eauto].
+  destruct fp as [[n sc] M]. cbn [fp_scores fp_ngt fst snd] in *. subst sc.
+  rewrite match_frame_no_predictions in H. inversion H. reflexivity.
+Qed.
+Print Assumptions c15_frame_without_match_all_missed.
+
+Theorem c15_frames_nothing_matches_all_missed : forall fixed thr fps ps fns,
+  Forall (fun fp => fp_scores fp = [] \/
+                    forall g p q, mget (fp_oks fp) g p = Some q -> (q <= thr)%Q) fps ->
+  match_frame_pairs fixed thr fps = Some (ps, fns) -> ps = [] /\ fns = all_gt fps.
+Proof. exact match_frame_pairs_nothing_matches. Qed.
+Print Assumptions c15_frames_nothing_matches_all_missed.
+
+(* totality: the repaired code answers for every list; the code with F51 fails exactly when
+   some frame pair has predictions and no gt instance *)
+Theorem c15_frames_total : forall thr fps, exists r, match_frame_pairs true thr fps = Some r.
+Proof. exact match_frame_pairs_total. Qed.
+Print Assumptions c15_frames_total.
+
+Theorem c15_frames_fail_only_F51 : forall fixed thr fps,
+  match_frame_pairs fixed thr fps = None ->
+  fixed = false /\ Exists (fun fp => fp_ngt fp = 0%nat /\ fp_scores fp <> []) fps.
+Proof. exact match_frame_pairs_fails. Qed.
+Print Assumptions c15_frames_fail_only_F51.
+
 (* ---- helpers of tracking/utils.py ---- *)
 Theorem c15_greedy_one_to_one_maximal : forall C,
   let r := greedy_matching C in
@@ -237,4 +313,22 @@ Proof. split; vm_compute; reflexivity. Qed.
 Example ex_c15_match_nonvacuous :
   match_instances false 2 [1 # 2; 7 # 8]%Q [[Some (1 # 4); Some (3 # 4)]; [Some (1 # 2); Some (3 # 4)]]%Q 0%Q
   = Some ([(0%nat, 1%nat, (3 # 4)%Q); (1%nat, 0%nat, (1 # 2)%Q)], []).
+Proof. vm_compute. reflexivity. Qed.
+
+(* frame lists: [2 gt, 2 predictions] ; [2 gt, empty predicted frame] ; [empty gt frame, 1 prediction] ;
+   [both empty] ; [1 gt, 1 prediction not above the threshold] — 5 gt instances = 2 matched + 3 missed *)
+Example ex_c15_frames_nonvacuous :
+  match_frame_pairs true (1 # 4)%Q
+    [ (2%nat, [1 # 2; 7 # 8]%Q, [[Some (1 # 2); Some (3 # 4)]; [Some (1 # 2); Some (3 # 4)]]%Q);
+      (2%nat, [], [[]; []]);
+      (0%nat, [1 # 2]%Q, []);
+      (0%nat, [], []);
+      (1%nat, [1]%Q, [[Some (1 # 4)]]%Q) ]
+  = Some ([(0%nat, (0%nat, 1%nat, (3 # 4)%Q)); (0%nat, (1%nat, 0%nat, (1 # 2)%Q))],
+          [(1%nat, 0%nat); (1%nat, 1%nat); (4%nat, 0%nat)]).
+Proof. vm_compute. reflexivity. Qed.
+
+(* the unrepaired code (F51) has no answer as soon as one frame pair has predictions and no gt *)
+Example ex_c15_frames_F51 :
+  match_frame_pairs false 0%Q [ (1%nat, [], [[]]); (0%nat, [1 # 2]%Q, []) ] = None.
 Proof. vm_compute. reflexivity. Qed.
